@@ -50,6 +50,9 @@ structure St where
   expectUnchanged : Bool := false   -- the last request was a rejected configuration update: nothing may have changed
   pods : List String := []          -- pods the runtime currently has
   memTotal : Nat := 0               -- bytes of memory of the generated machine
+  restarted : Bool := false         -- the plugin was restarted earlier in this history
+  optStr : String := ""             -- the behavioural options in force (package-level opt of the policy)
+  prevOptStr : String := ""
   cachePods : List String := []     -- pods in the plugin's cache
   unsat : List String := []         -- live containers the policy cannot satisfy at all after the restart (harness probe)
   tainted : Bool := false           -- an unchanged configuration was rejected earlier in this history (known finding); later issues are its consequences
@@ -91,6 +94,10 @@ def flag (flags key : String) : String :=
 def optB (s : String) : Option Bool := if s == "T" then some true else if s == "F" then some false else none
 
 def report (st : St) (issues : List String) : St × List Issue :=
+  -- C11: after a restart the returned updates must bring the runtime's view in line with the cache
+  let issues := issues.flatMap fun e =>
+    if st.restarted && (e.startsWith "C05:runtime-view-differs" || e.startsWith "C05:change-left-pending") then
+      [e, "C11:runtime-view-not-in-line-with-cache-after-restart " ++ e] else [e]
   issues.foldl (fun (acc : St × List Issue) e =>
     -- an issue class already reported before the refused reconfiguration is not its consequence
     if acc.1.tainted && acc.1.reported.contains ((e.splitOn " ").headD e) then acc else
@@ -310,7 +317,7 @@ def step (st : St) (toks : List String) : St × List Issue :=
   match toks with
   | "H" :: h :: _ :: cfg =>
     ({ st with hist := h.toNat?.getD 0, cfg := " ".intercalate cfg, ctrs := [], snap := ⟨[], [], [], true, true, [], []⟩, initPools := [], haveInit := false,
-               cacheView := [], drained := false, errPending := [], model := none, modelDesync := false, reported := [], tainted := false, staleElig := [], cfgChanged := false, expectUnchanged := false, pods := [], cachePods := [], hists := st.hists + 1, lastEv := [] }, [])
+               cacheView := [], drained := false, restarted := false, errPending := [], model := none, modelDesync := false, reported := [], tainted := false, staleElig := [], cfgChanged := false, expectUnchanged := false, pods := [], cachePods := [], hists := st.hists + 1, lastEv := [] }, [])
   | "M" :: rest =>
     let tot := ((rest.getLast?.getD "").splitOn ",").foldl (fun a n => a + (((n.splitOn ":").getD 3 "0").toNat?.getD 0)) 0
     ({ st with memTotal := tot }, [])
@@ -408,7 +415,7 @@ def step (st : St) (toks : List String) : St × List Issue :=
         | none => (st, errs)
       | "restart" :: _ =>
         -- pending marks and error-pending bookkeeping do not survive a restart; every live container is re-allocated
-        ({ st with errPending := [], restarts := st.restarts + 1, staleElig := [] }, errs)
+        ({ st with errPending := [], restarts := st.restarts + 1, staleElig := [], restarted := true }, errs)
       | "sync" :: _ => ({ st with staleElig := [] }, errs)
       | ["reconfig", "change:reservedns"] =>
         -- the grants are re-instated verbatim: containers whose namespace changed class keep their old kind of grant
@@ -458,8 +465,15 @@ def step (st : St) (toks : List String) : St × List Issue :=
     ({ st with prevCacheView := st.cacheView, cacheView := cv, errPending := ep }, [])
   | ["PS", a, r, i, pc, pm] =>
     match (kv a "allowed").bind pset, (kv r "reserved").bind pset, (kv i "isolated").bind pset with
-    | some a, some r, some i => ({ st with prevSnap := st.snap, snap := ⟨a, r, i, pc == "pincpu=true", pm == "pinmem=true", [], []⟩ }, [])
+    | some a, some r, some i => ({ st with prevSnap := st.snap, prevOptStr := st.optStr, snap := ⟨a, r, i, pc == "pincpu=true", pm == "pinmem=true", [], []⟩ }, [])
     | _, _, _ => (st, [⟨.parse, "PS"⟩])
+  | ["PO", o] =>
+    -- the options the allocation code consults must be those of the active configuration
+    let f := fun (k : String) => ((o.splitOn ";").findSome? (fun x => kv x k)).getD "?"
+    let st := { st with optStr := o }
+    if f "pincpu" != f "cfg-pincpu" || f "pinmem" != f "cfg-pinmem" then
+      report st [s!"C13:options-in-force-differ-from-active-configuration {o}"]
+    else (st, [])
   | ["PN", name, parent, iso, res, sh, fi, fs, gs, gr, ss, sr] =>
     match pset iso, pset res, pset sh, pset fi, pset fs, gs.toInt?, gr.toInt?, ss.toInt?, sr.toInt? with
     | some iso, some res, some sh, some fi, some fs, some gs, some gr, some ss, some sr =>
@@ -521,6 +535,8 @@ def step (st : St) (toks : List String) : St × List Issue :=
         let st := if revertFailed then { st with tainted := true } else st
         let errs := if st.snap.pinCPU != st.prevSnap.pinCPU || st.snap.pinMem != st.prevSnap.pinMem || !sameSet st.snap.reserved st.prevSnap.reserved || !sameSet st.snap.allowed st.prevSnap.allowed then
           errs ++ [s!"C13:rejected-config-changed-options {st.lastEv.getD 1 "?"}"] else errs
+        let errs := if st.optStr != st.prevOptStr && st.prevOptStr != "" then
+          errs ++ [s!"C13:rejected-config-changed-options {st.lastEv.getD 1 "?"} in force before: {st.prevOptStr} after: {st.optStr}"] else errs
         let (st, is2) := report { st with expectUnchanged := false } errs
         (st, is ++ is2)
       else (st, is)
